@@ -28,11 +28,9 @@ Section Assoc.
     | [] => [(k, v)]
     | (k', v') :: r => if keqb k k' then (k, v) :: r else (k', v') :: set k v r
     end.
-  Fixpoint remove (k : K) (m : list (K * V)) : list (K * V) :=
-    match m with
-    | [] => []
-    | (k', v') :: r => if keqb k k' then r else (k', v') :: remove k r
-    end.
+  (* delete(m, k) *)
+  Definition remove (k : K) (m : list (K * V)) : list (K * V) :=
+    filter (fun kv => negb (keqb k (fst kv))) m.
 End Assoc.
 
 Definition slookup {V} := @lookup string V String.eqb.
@@ -149,6 +147,18 @@ Section Fs.
   Definition make_file_exist (f : fs) (n : name) : fs := fst (apply f (CreateIfMissing n)).
   Definition startup (f : fs) : fs * option content :=
     let f1 := make_file_exist f Main in (f1, read f1 Main).
+
+  (* Every directory that saves, kills and restarts can produce from f0, with the list of contents written
+     so far (newest first):  a save may be cut after any of its operations (any element of its trace; the
+     last element = it ran to its end); a restart runs the start-up sequence; then more saves may follow,
+     each with its own content, split into chunks in any way, with any pattern of failing operations. *)
+  Inductive reachable (f0 : fs) : fs -> list content -> Prop :=
+  | reach_init : reachable f0 f0 []
+  | reach_save : forall f vs chunks faults f',
+      reachable f0 f vs -> In f' (save_trace f chunks faults) ->
+      reachable f0 f' (concat chunks :: vs)
+  | reach_restart : forall f vs,
+      reachable f0 f vs -> reachable f0 (fst (startup f)) vs.
 End Fs.
 Arguments content : clear implicits.
 Arguments fs : clear implicits.
